@@ -1,9 +1,11 @@
 package coding
 
+import "github.com/M2MGateway/go-smpp/coding/gsm7bit"
+
 type Splitter func(rune) int
 
 var (
-	_7BitSplitter      Splitter = func(rune) int { return 7 }
+	_7BitSplitter      Splitter = func(r rune) int { return 7 * gsm7bit.Septets(r) }
 	_1ByteSplitter     Splitter = func(rune) int { return 8 }
 	_MultibyteSplitter Splitter = func(r rune) int {
 		if r < 0x7F {
